@@ -137,7 +137,7 @@ def relation(kind, info, res):
         if full.pcap is None or v.pcap is None or not full.pcap.startswith(v.pcap):
             return ("prefix-output", "the output of the first %d statements is not a prefix of the whole output" % info["pos"])
         return None
-    if kind in ("rebind", "dup-let", "use-before", "arg-fail", "import-missing", "import-late", "import-unknown"):
+    if kind in ("rebind", "dup-let", "use-before", "arg-fail", "import-missing", "import-late", "import-unknown", "ns-no-import"):
         want = info["want_kind"]
         if res["prefix"].status != "ok":
             return None
@@ -152,7 +152,18 @@ def relation(kind, info, res):
             return (kind + "-partial-output", "output kept after the diagnostic differs from the output of the statements "
                     "before the offending one (%s vs %s bytes)" % (len(v.pcap or b""), len(p.pcap or b"")))
         return None
-    if kind in ("import-again", "unused-let", "hoist", "inline-all", "inline-one", "inline-drop", "outline"):
+    if kind == "use-after-let":
+        b = res["base"]
+        if b.status != "ok":
+            return None
+        if v.status != "ok":
+            return ("use-after-let-fails", "`%s` (holding %s) is not usable after its let: %s %s %s"
+                    % (info["name"], info["bound_kind"], v.status, v.kind, v.loc))
+        if info["silent"] and v.pcap != b.pcap:
+            return ("use-after-let-output", "a use of `%s` (holding %s) changed the output" % (info["name"], info["bound_kind"]))
+        return None
+    if kind in ("import-again", "unused-let", "hoist", "inline-all", "inline-one", "inline-drop", "outline",
+                "ns-import-let", "ns-let-import", "kinds-direct"):
         b = res["base"]
         if not same_outcome(v, b):
             return (kind + "-outcome", "outcome %s %s, the related program gives %s %s" % (v.status, v.kind, b.status, b.kind))
@@ -258,11 +269,191 @@ def rvalue_for_rebind(r, g, bound):
     return Call("ipv4::tcp::flow", SOCK("9.9.9.9", 1), SOCK("9.9.9.8", 2)), "constructor"
 
 
+HEADER = ["ipv4", "time", "vxlan", "gre", "erspan1", "erspan2", "eth", "dns", "std", "text"]     # = ProgGen's
+WHAT_KIND = {"tcpflow": "obj", "udpflow": "obj", "icmpflow": "obj", "fragctx": "obj", "tunnel": "obj", "store": "pkt-or-pktgen"}
+SILENT = ("nil", "int", "bool", "str", "ip", "sock", "obj", "func", "method")      # kinds whose `x;` writes nothing
+
+
+class Base:
+    """a base program with the value kind of every let-bound name"""
+    pass
+
+
+def random_base(r, idx, thorough):
+    """ProgGen program; calls made for their effect only (TcpFlow.client_hole/server_hole, the functions of the
+    catalogue that return nothing) are bound by a let half of the time, so that names holding nil exist"""
+    g = progs.random_program(r, nsteps=r.randint(2, 10 if thorough else 8), jumps=0.1, tunnels=0.15, lets=0.45, maxlen=20)
+    b = Base()
+    b.tcp, b.icmp = g.tcp, g.icmp
+    st, kinds = [], {}
+    for s_, m in zip(g.stmts, g.meta):
+        if m.get("what") == "hole" and r.random() < 0.6:
+            name = "n%d_%d" % (idx, len(st))
+            st.append(Let(name, s_[1]))
+            kinds[name] = "nil"
+        else:
+            st.append(s_)
+            if s_[0] == "let":
+                kinds[s_[1]] = WHAT_KIND.get(m.get("what"), "?")
+    if g.tcp and not any(k == "nil" for k in kinds.values()) and r.random() < 0.6:
+        f = r.choice(g.tcp)
+        i = next(k for k, s_ in enumerate(st) if s_[0] == "let" and s_[1] == f)
+        name = "n%d_x" % idx
+        st.insert(r.randint(i + 1, len(st)), Let(name, Call(f + "." + r.choice(["client_hole", "server_hole"]),
+                                                           INT(r.choice([0, 1, 100, 1460])))))
+        kinds[name] = "nil"
+    b.stmts, b.kinds, b.direct = st, kinds, None
+    return b
+
+
+def kinds_base(r, idx):
+    """one let for every kind of value the language can bind, then a use of every name"""
+    b = Base()
+    t, i = "t%d" % idx, "i%d" % idx
+    b.tcp, b.icmp = [t], [i]
+    st = [Import(m) for m in HEADER]
+    st.append(Let(t, Call("ipv4::tcp::flow", SOCK(rand_ip(r), rand_port(r)), SOCK(rand_ip(r), rand_port(r)))))
+    st.append(Let(i, Call("ipv4::icmp::flow", IP(rand_ip(r)), IP(rand_ip(r)))))
+    kinds = {t: "obj", i: "obj"}
+    mk = {
+        "nil": lambda: Call(t + "." + r.choice(["client_hole", "server_hole"]), INT(r.choice([0, 1, 100, 1460]))),
+        "int": lambda: r.choice([INT(r.getrandbits(16)), HEX(r.getrandbits(8))]),
+        "bool": lambda: BOOL(r.random() < 0.5),
+        "str": lambda: STR(rand_payload(r, 10)),
+        "ip": lambda: IP(rand_ip(r)),
+        "sock": lambda: SOCK(rand_ip(r), rand_port(r)),
+        "obj": lambda: r.choice([Call("ipv4::udp::flow", SOCK(rand_ip(r), 1), SOCK(rand_ip(r), 2)), Ref(t), Ref(i)]),
+        "func": lambda: Ref(r.choice(["ipv4::datagram", "text::concat", "ipv4::tcp::flow", "std::be32"])),
+        "method": lambda: Ref(r.choice([t + ".client_message", t + ".client_hole", i + ".echo"])),
+        "pkt": lambda: Call(i + ".echo", STR(rand_payload(r, 8))),
+        "pktgen": lambda: r.choice([Call(t + ".open"), Call(t + ".client_message", STR(rand_payload(r, 8)))]),
+        "timejump": lambda: Call("time::jump_" + r.choice(["millis", "micros"]), INT(r.randint(0, 5000))),
+    }
+    order = list(mk)
+    r.shuffle(order)
+    names = []
+    for k in order:
+        name = "%s%d" % ({"nil": "nl", "int": "nm", "bool": "bl", "str": "sr", "ip": "ad", "sock": "sk", "obj": "ob",
+                          "func": "fn", "method": "mt", "pkt": "pk", "pktgen": "pg", "timejump": "tj"}[k], idx)
+        st.append(Let(name, mk[k]()))
+        kinds[name] = k
+        names.append(name)
+        if r.random() < 0.3:
+            st.append(Do(Call(i + ".echo", STR(b"between"))))
+    direct = list(st)
+    uses = list(names) + [r.choice(names) for _ in range(3)]
+    r.shuffle(uses)
+    for x in uses:
+        st.append(Do(Ref(x)))
+        if kinds[x] not in SILENT:
+            direct.append(Do(Ref(x)))
+    # values used: plain ones as arguments, function and method values called
+    e1 = Call("ipv4::datagram", Ref("ad%d" % idx), IP("9.9.9.9"), _x=[Ref("sr%d" % idx), Ref("nm%d" % idx), Ref("pk%d" % idx)])
+    st.append(Do(e1))
+    direct.append(Do(e1))
+    fe = next(s_[2] for s_ in st if s_[0] == "let" and s_[1] == "fn%d" % idx)
+    fargs = {"datagram": ([IP("1.1.1.1"), IP("2.2.2.2"), Ref("sr%d" % idx)], True), "concat": ([STR(b"a"), Ref("sr%d" % idx)], False),
+             "flow": ([Ref("sk%d" % idx), SOCK("3.3.3.3", 3)], False), "be32": ([Ref("nm%d" % idx)], False)}[fe.comps[-1]]
+    st.append(Do(Call("fn%d" % idx, *fargs[0])))
+    direct.append(Do(Call("::".join(fe.mods + fe.comps), *fargs[0])))
+    me = next(s_[2] for s_ in st if s_[0] == "let" and s_[1] == "mt%d" % idx)
+    margs = [INT(7)] if me.comps[-1] == "client_hole" else [Ref("sr%d" % idx)]
+    st.append(Do(Call("mt%d" % idx, *margs)))
+    direct.append(Do(Call(".".join(me.comps), *margs)))
+    st.append(Do(Call(t + ".client_segment", STR(b"tail"))))
+    direct.append(Do(Call(t + ".client_segment", STR(b"tail"))))
+    b.stmts, b.kinds, b.direct = st, kinds, direct
+    return b
+
+
+# a statement that needs module m to be visible: (statement builder, is a let)
+def module_use(m, r, tag):
+    pay = {"std": Call("std::be16", INT(513)), "text": Ref("text::CRLF"), "ipv4": Ref("ipv4::proto::GRE"),
+           "dns": Ref("dns::rcode::NXDOMAIN"), "netbios": Ref("netbios::ns::rrtype::NB"), "dhcp": Ref("dhcp::CLIENT_PORT"),
+           "arp": Ref("arp::hrd::ETHER"), "tls": Ref("tls::version::SSL_2"), "vxlan": Ref("vxlan::DEFAULT_PORT"),
+           "eth": Ref("eth::ethertype::VLAN")}
+    if m in pay:
+        return pay[m], None
+    if m == "time":
+        return None, Do(Call("time::jump_millis", INT(2)))
+    if m == "io":
+        return None, Let("mu_%s" % tag, Call("io::bufio", STR(b"abc")))
+    if m == "gre":
+        return None, Let("mu_%s" % tag, Call("gre::session", IP("7.7.7.7"), IP("7.7.7.8"), INT(0x6558)))
+    return None, Let("mu_%s" % tag, Call(m + "::session", IP("7.7.7.7"), IP("7.7.7.8")))
+
+
+MODULES = ["std", "text", "io", "ipv4", "dns", "netbios", "dhcp", "arp", "tls", "vxlan", "gre", "eth", "erspan1", "erspan2", "time"]
+
+
+def namespace_families(pool, st, idx, thorough):
+    """variables and modules are separate name spaces: a variable called like a module, bound before or after the
+    import, with both used afterwards, behaves as a variable with any other name"""
+    r = pool.rng
+    n = len(st)
+    for rep_ in range(3 if thorough else 2):
+        m = r.choice(MODULES)
+        uses_m = [i for i in range(NHEAD, n) if m in modules_used(st[i])]
+        fu = uses_m[0] if uses_m else n
+        i = r.randint(NHEAD, fu)
+        vk = r.choice(["str", "int", "ip", "obj", "pkt"]) if m != "ipv4" else r.choice(["str", "int", "ip"])
+        if vk in ("obj", "pkt") and "ipv4" not in [s_[1] for s_ in st[:NHEAD]]:
+            vk = "str"
+        val = {"str": lambda: STR(b"hello"), "int": lambda: INT(r.getrandbits(16)), "ip": lambda: IP(rand_ip(r)),
+               "obj": lambda: Call("ipv4::udp::flow", SOCK("10.0.0.1", 4000), SOCK("10.0.0.2", 5000)),
+               "pkt": lambda: Call("ipv4::datagram", IP("4.4.4.4"), IP("5.5.5.5"), STR(b"stored"))}[vk]()
+        pay, stm = module_use(m, r, "%d_%d" % (idx, rep_))
+
+        def build(name, order):
+            """order: 'import-let' | 'let-import' | 'no-import'"""
+            head = [s_ for s_ in st[:NHEAD] if s_ != Import(m)]
+            out = head + ([Import(m)] if order == "import-let" else []) + st[NHEAD:i] + [Let(name, val)]
+            if order == "let-import":
+                out.append(Import(m))
+            after = []
+            # uses of the variable and of the module
+            var = Ref(name)
+            if vk == "obj":
+                after.append(Do(Call(name + ".client_dgram", STR(b"x"), *([pay] if pay is not None else []))))
+                if stm is not None:
+                    after.append(stm)
+            elif vk == "pkt":
+                after.append(Do(var))
+                after.append(Do(Call("ipv4::datagram", IP("1.1.1.1"), IP("2.2.2.2"), var, *([pay] if pay is not None else []))) if pay is not None else stm)
+            else:
+                after.append(Do(Call("ipv4::datagram", IP("1.1.1.1"), IP("2.2.2.2"), var, *([pay] if pay is not None else []))))
+                if stm is not None:
+                    after.append(stm)
+            k = r_pos
+            body = st[i:]
+            out2 = out + body[:k] + after + body[k:]
+            first_mod_use = len(out) + k + next(j for j, a in enumerate(after) if m in modules_used(a))
+            if uses_m:
+                first_mod_use = min(first_mod_use, len(out) + (uses_m[0] - i) + (len(after) if uses_m[0] - i >= k else 0))
+            return out2, first_mod_use
+        r_pos = r.randint(0, n - i)
+        fresh = "nsv_%d_%d" % (idx, rep_)
+        b_st, _ = build(fresh, "import-let")
+        base, _ = pool.add(b_st)
+        info = {"module": m, "value": vk, "pos": i}
+        for order in ("import-let", "let-import"):
+            v_st, _ = build(m, order)
+            v, _ = pool.add(v_st)
+            pool.fam("ns-" + order, info, variant=v, base=base)
+        # the variable does not make the module visible
+        v_st, k = build(m, "no-import")
+        v, lines = pool.add(v_st)
+        pool.fam("ns-no-import", dict(info, want_kind="name", line=lines[k]), variant=v, prefix=pool.add(v_st[:k])[0])
+
+
 def program_families(ctx, pool, idx, thorough):
     r = pool.rng
-    g = progs.random_program(r, nsteps=r.randint(2, 10 if thorough else 8), jumps=0.1, tunnels=0.15, lets=0.45, maxlen=20)
+    g = kinds_base(r, idx) if idx % 4 == 3 else random_base(r, idx, thorough)
     st = g.stmts
     base, blines = pool.add(st)
+    if g.direct is not None:
+        d, _ = pool.add(g.direct)
+        pool.fam("kinds-direct", {"kinds": sorted(set(g.kinds.values()))}, variant=base, base=d)
     n = len(st)
     positions = list(range(NHEAD, n + 1))
     prefixes = {}
@@ -280,18 +471,31 @@ def program_families(ctx, pool, idx, thorough):
         bound = let_names(st[:pos])
         if not bound:
             continue
-        x = r.choice(bound)
+        nils = [b_ for b_ in bound if g.kinds.get(b_) == "nil"]
+        x = r.choice(nils) if nils and r.random() < 0.35 else r.choice(bound)
         rv, what = rvalue_for_rebind(r, g, bound)
         tail = st[pos:] if r.random() < 0.7 else []
         v, lines = pool.add(st[:pos] + [Let(x, rv)] + tail)
-        pool.fam("rebind", {"want_kind": "reassign:" + x, "line": lines[pos], "name": x, "rvalue": what, "pos": pos},
-                 variant=v, prefix=prefix(pos))
+        pool.fam("rebind", {"want_kind": "reassign:" + x, "line": lines[pos], "name": x, "rvalue": what, "pos": pos,
+                            "bound_kind": g.kinds.get(x, "?")}, variant=v, prefix=prefix(pos))
     # a copy of a let right before it: the copy binds, the original is rejected
     lets = [i for i in range(NHEAD, n) if st[i][0] == "let"]
-    for i in r.sample(lets, min(len(lets), 2)):
+    nil_lets = [i for i in lets if g.kinds.get(st[i][1]) == "nil"]
+    for i in set(r.sample(lets, min(len(lets), 2)) + nil_lets[:2]):
         v, lines = pool.add(st[:i] + [st[i]] + st[i:])
-        pool.fam("dup-let", {"want_kind": "reassign:" + st[i][1], "line": lines[i + 1], "name": st[i][1], "pos": i},
-                 variant=v, prefix=prefix(i))
+        pool.fam("dup-let", {"want_kind": "reassign:" + st[i][1], "line": lines[i + 1], "name": st[i][1], "pos": i,
+                             "bound_kind": g.kinds.get(st[i][1], "?")}, variant=v, prefix=prefix(i))
+    # (b) a name is usable after its let, whatever it holds
+    picks = set(r.sample(lets, min(len(lets), 3 if thorough else 2)) + nil_lets[:2])
+    for i in picks:
+        x, k = st[i][1], g.kinds.get(st[i][1], "?")
+        pos = r.randint(i + 1, n)
+        form = r.choice(["stmt", "arg"]) if k in ("int", "str", "ip", "pkt") else "stmt"
+        s_ = Do(Ref(x)) if form == "stmt" else Let("ual_%d_%d" % (idx, i), Call("text::concat", STR(b"a"), Ref(x)))
+        v, _ = pool.add(st[:pos] + [s_] + st[pos:])
+        pool.fam("use-after-let", {"name": x, "bound_kind": k, "form": form, "pos": pos,
+                                   "silent": k in SILENT or form == "arg"}, variant=v, base=base)
+    namespace_families(pool, st, idx, thorough)
     # (b) use before let
     for _ in range(3 if thorough else 2):
         pos = r.choice(positions)
